@@ -63,6 +63,7 @@ CTYPES = {".bin": None, ".txt": None, ".ct1": "text/plain; note=caf\xe9", ".ct2"
 
 
 _SUB = {}
+BOUNDARY_SEED = [20240229]
 
 
 def file_class(ns, sub):
@@ -83,7 +84,7 @@ def call(iface, path, chunk, method, headers, resp=None, sub=False):
     ctype_arg = CTYPES.get(os.path.splitext(path)[1])
     req = drivers.Req(method=method, path=b"/f", headers=headers,
                       extensions={"http.response.zerocopysend": {}} if iface == "asgi-zc" else None)
-    random.seed(20240229)  # same multipart boundary for GET and HEAD / both interfaces
+    random.seed(BOUNDARY_SEED[0])  # the same multipart boundary for a GET and its HEAD twin; another one for the next case
     if iface == "wsgi":
         resp = resp or file_class(wsgi, sub)(path, chunk_size=chunk, content_type=ctype_arg)
         r = drivers.run_wsgi(resp, drivers.to_environ(req))
@@ -132,6 +133,7 @@ def execute(ctx, env, case, resp=None):
         headers.append(("If-Range", ifr))
 
     fam = "wsgi" if iface == "wsgi" else "asgi"
+    BOUNDARY_SEED[0] += 1
     try:
         r, status, hdrs, body = call(iface, path, chunk, method, headers, resp, sub=sub)
     except drivers.HarnessError:
